@@ -237,4 +237,19 @@ PROPS = {
             "core::cmp::max is specified through vstd's OrdSpec",
         ],
     },
+    "C15": {
+        "level": "other",
+        "units": ["queries"],
+        "kani": [],
+        "explanation": "contract on the data structure that ties a response to its request on a multiplexed stream (message ID = slot "
+                       "index of net/client/stream.rs::Queries): representation invariant (count == number of occupied slots, all slots "
+                       "below curr occupied, at most 65535 slots so every index fits a 16-bit ID) is preserved by new/insert/insert_at/"
+                       "try_remove; insert hands out only a slot that was free or new and leaves every other slot untouched (no "
+                       "outstanding request loses or shares its ID), refuses exactly when 2*count > 65535, and its two expect() calls "
+                       "cannot fail; try_remove returns exactly the stored item and clears only that slot.",
+        "not_covered": "Everything about delivery: matching responses to requests (Message::is_answer), exactly-once completion, "
+                       "timeouts, retries, reordering/duplication/loss, truncation fallback, the datagram/redundant/load-balancing "
+                       "transports (async tasks over tokio; schedules are outside contract-based verification).",
+        "assumptions": ["core::cmp::min is specified through vstd's OrdSpec"],
+    },
 }
